@@ -906,9 +906,20 @@ package router
 //@   callsite ReleaseMsg: [C20:released-after-the-answer] nH == 1 && arg0 == m
 
 // ---- server_http_gohttp.go (DoH): admission before anything else is done for the request ----------------------
+// getDnsKey: scans "k=v&k=v" for the value of "dns"; terminates on every query string.
+//@ func getDnsKey(query string) (v string)
+//@   props C01
+//@   modifies nothing
+//@   loop 1:
+//@     modifies nothing
+//@     decreases len(query)
+
+// readReqMsg: whatever the request carries - any method, headers, query string, base64 text or body - this
+// returns a decoded query or nothing (after answering with an error status), never panics; the base64 text is
+// decoded into a buffer of the size the decoder asks for, and the result does not point into pooled memory.
 //@ func (h *httpHandler) readReqMsg(w http.ResponseWriter, req *http.Request) (m *dnsmsg.Msg)
-//@   trusted
-//@   requires h != nil && w != nil && req != nil
+//@   props C01 C20
+//@   requires h != nil && h.logger != nil && w != nil && req != nil && req.URL != nil
 //@   modifies nothing
 //@   ensures m != nil ==> fresh(m) && wfMsg(m) && !attr(released, m)
 
